@@ -424,6 +424,9 @@ class NdArr:
     def z_len(self, it):
         return self.a.shape[0]
 
+    def z_iter(self, it):
+        return [self.z_getitem(it, i) for i in range(self.a.shape[0])]
+
     def z_val(self, world):
         f = world.uf_raw(f"ndarr{self.a.size}", [world_val_sort()] * self.a.size, world_val_sort())
         return f(*[world.to_val(x) for x in self.a.reshape(-1)])
